@@ -62,7 +62,13 @@ class SimThreads:
 
     YIELD_CAP = 400
 
-    def __init__(self, policy="fifo", rng=None, trace=None, extra_codes=(), instruction_events=True, log=None):
+    def __init__(self, policy="fifo", rng=None, trace=None, extra_codes=(), instruction_events=True, log=None, yield_cap=None, inline=False):
+        if yield_cap is not None:
+            self.YIELD_CAP = yield_cap  # coarse pre-emption: a few yields per thread
+        # inline: no pre-emption at all - every thread body runs to completion when it is picked
+        # (thousands of threads: the schedule is the order of the bodies and the set of bodies that
+        # have not run when a join returns)
+        self.inline = inline
         self.policy = policy
         self.rng = rng
         self.replay = list(trace) if trace is not None else None
@@ -83,6 +89,8 @@ class SimThreads:
         self.error = None
         self._last = None
         self.draining = False
+        self._fresh = []
+        self._runnable = []
 
     # -- installation -----------------------------------------------------------------------
     def __enter__(self):
@@ -157,6 +165,8 @@ class SimThreads:
         t.tid = len(self.threads)
         t.started = True
         self.threads.append(t)
+        self._fresh.append(t)
+        self._runnable.append(t)
 
     def _body(self, t):
         self.by_ident[threading.get_ident()] = t
@@ -206,7 +216,10 @@ class SimThreads:
         may still be unfinished when the caller reads the shared array."""
         if not waiting_for.started:
             raise RuntimeError("cannot join thread before it is started")
-        fresh = [t for t in self.threads if t.started and not t.done and getattr(t, "_real", None) is None]
+        if self.inline:
+            return self._run_inline(waiting_for)
+        fresh = self._fresh
+        self._fresh = []
         if fresh:
             self.batches += 1
             self.max_threads = max(self.max_threads, len(fresh))
@@ -215,7 +228,8 @@ class SimThreads:
                 t._real.start()
         last = self._last
         while not waiting_for.done:
-            runnable = [t for t in self.threads if t.started and not t.done]
+            # (kept incrementally: thousands of threads make a scan per decision quadratic)
+            runnable = self._runnable
             t = self._pick(runnable, last)
             if last is not None and t is not last:
                 self.switches += 1
@@ -225,8 +239,36 @@ class SimThreads:
             if not self.control.wait(timeout=60):
                 self.error = "scheduler timeout"
                 raise HarnessError("simulated thread did not yield within 60 s")
+            if t.done:
+                runnable.remove(t)
             last = t
         self._last = last
+
+    def _run_inline(self, waiting_for):
+        if self._fresh:
+            self.batches += 1
+            self.max_threads = max(self.max_threads, len(self._runnable))
+            self._fresh = []
+        last = self._last
+        runnable = self._runnable
+        while not waiting_for.done:
+            t = self._pick(runnable, last)
+            if last is not None and t is not last:
+                self.switches += 1
+            self.trace.append(t.tid)
+            self._body_inline(t)
+            runnable.remove(t)
+            last = t
+        self._last = last
+
+    def _body_inline(self, t):
+        try:
+            t.target(*t.args, **t.kwargs)
+        except BaseException as e:
+            t.exc = e
+            self.exceptions.append((t.tid, e))
+        finally:
+            t.done = True
 
     def unfinished(self):
         return [t for t in self.threads if t.started and not t.done]
@@ -234,6 +276,11 @@ class SimThreads:
     def _drain(self):
         """Let threads nobody joined run to completion (after the observed call returned)."""
         self.draining = True
+        if self.inline:
+            for t in list(self._runnable):
+                self._body_inline(t)
+            self._runnable = []
+            return
         for t in self.threads:
             if t.started and not t.done and getattr(t, "_real", None) is not None:
                 t.baton.set()
